@@ -42,17 +42,18 @@ Record state : Type := mkState
     del_fix : bool;                   (* does DeleteIdentityRecordById also delete the address+key index entry? (probed on the real code) *)
     msg_guard : bool;
     rrtok : list addr;                (* addresses with a validator recovery token (x/recovery) *)                 (* does MsgSetNetworkProperties apply the EnsureUniqueKeys guards? (probed on the real code) *)
-    rot_check : bool }.                 (* do the rotations refuse a target that already holds identity records? (probed) *)
+    rot_check : bool;                 (* do the rotations refuse a target that already holds identity records? (probed) *)
+    actor_check : bool }.               (* do the rotations refuse a target that is a network actor? (probed; commit 2093997) *)
 
-Definition set_recs (s : state) x := mkState x (idx s) (reqs s) (last_rid s) (last_qid s) (ukeys s) (min_tip s) (councilors s) (perm_c s) (perm_v s) (perm_n s) (accts s) (secrets s) (rotated s) (bal s) (del_fix s) (msg_guard s) (rrtok s) (rot_check s).
-Definition set_idx (s : state) x := mkState (recs s) x (reqs s) (last_rid s) (last_qid s) (ukeys s) (min_tip s) (councilors s) (perm_c s) (perm_v s) (perm_n s) (accts s) (secrets s) (rotated s) (bal s) (del_fix s) (msg_guard s) (rrtok s) (rot_check s).
-Definition set_reqs (s : state) x := mkState (recs s) (idx s) x (last_rid s) (last_qid s) (ukeys s) (min_tip s) (councilors s) (perm_c s) (perm_v s) (perm_n s) (accts s) (secrets s) (rotated s) (bal s) (del_fix s) (msg_guard s) (rrtok s) (rot_check s).
-Definition set_last_rid (s : state) x := mkState (recs s) (idx s) (reqs s) x (last_qid s) (ukeys s) (min_tip s) (councilors s) (perm_c s) (perm_v s) (perm_n s) (accts s) (secrets s) (rotated s) (bal s) (del_fix s) (msg_guard s) (rrtok s) (rot_check s).
-Definition set_last_qid (s : state) x := mkState (recs s) (idx s) (reqs s) (last_rid s) x (ukeys s) (min_tip s) (councilors s) (perm_c s) (perm_v s) (perm_n s) (accts s) (secrets s) (rotated s) (bal s) (del_fix s) (msg_guard s) (rrtok s) (rot_check s).
-Definition set_ukeys (s : state) x := mkState (recs s) (idx s) (reqs s) (last_rid s) (last_qid s) x (min_tip s) (councilors s) (perm_c s) (perm_v s) (perm_n s) (accts s) (secrets s) (rotated s) (bal s) (del_fix s) (msg_guard s) (rrtok s) (rot_check s).
-Definition set_bal (s : state) ac x := mkState (recs s) (idx s) (reqs s) (last_rid s) (last_qid s) (ukeys s) (min_tip s) (councilors s) (perm_c s) (perm_v s) (perm_n s) ac (secrets s) (rotated s) x (del_fix s) (msg_guard s) (rrtok s) (rot_check s).
+Definition set_recs (s : state) x := mkState x (idx s) (reqs s) (last_rid s) (last_qid s) (ukeys s) (min_tip s) (councilors s) (perm_c s) (perm_v s) (perm_n s) (accts s) (secrets s) (rotated s) (bal s) (del_fix s) (msg_guard s) (rrtok s) (rot_check s) (actor_check s).
+Definition set_idx (s : state) x := mkState (recs s) x (reqs s) (last_rid s) (last_qid s) (ukeys s) (min_tip s) (councilors s) (perm_c s) (perm_v s) (perm_n s) (accts s) (secrets s) (rotated s) (bal s) (del_fix s) (msg_guard s) (rrtok s) (rot_check s) (actor_check s).
+Definition set_reqs (s : state) x := mkState (recs s) (idx s) x (last_rid s) (last_qid s) (ukeys s) (min_tip s) (councilors s) (perm_c s) (perm_v s) (perm_n s) (accts s) (secrets s) (rotated s) (bal s) (del_fix s) (msg_guard s) (rrtok s) (rot_check s) (actor_check s).
+Definition set_last_rid (s : state) x := mkState (recs s) (idx s) (reqs s) x (last_qid s) (ukeys s) (min_tip s) (councilors s) (perm_c s) (perm_v s) (perm_n s) (accts s) (secrets s) (rotated s) (bal s) (del_fix s) (msg_guard s) (rrtok s) (rot_check s) (actor_check s).
+Definition set_last_qid (s : state) x := mkState (recs s) (idx s) (reqs s) (last_rid s) x (ukeys s) (min_tip s) (councilors s) (perm_c s) (perm_v s) (perm_n s) (accts s) (secrets s) (rotated s) (bal s) (del_fix s) (msg_guard s) (rrtok s) (rot_check s) (actor_check s).
+Definition set_ukeys (s : state) x := mkState (recs s) (idx s) (reqs s) (last_rid s) (last_qid s) x (min_tip s) (councilors s) (perm_c s) (perm_v s) (perm_n s) (accts s) (secrets s) (rotated s) (bal s) (del_fix s) (msg_guard s) (rrtok s) (rot_check s) (actor_check s).
+Definition set_bal (s : state) ac x := mkState (recs s) (idx s) (reqs s) (last_rid s) (last_qid s) (ukeys s) (min_tip s) (councilors s) (perm_c s) (perm_v s) (perm_n s) ac (secrets s) (rotated s) x (del_fix s) (msg_guard s) (rrtok s) (rot_check s) (actor_check s).
 (* everything that is neither record, index, request, counter, unique-key list nor balance *)
-Definition set_aux (s : state) co pc pv pn ac ro rr := mkState (recs s) (idx s) (reqs s) (last_rid s) (last_qid s) (ukeys s) (min_tip s) co pc pv pn ac (secrets s) ro (bal s) (del_fix s) (msg_guard s) rr (rot_check s).
+Definition set_aux (s : state) co pc pv pn ac ro rr := mkState (recs s) (idx s) (reqs s) (last_rid s) (last_qid s) (ukeys s) (min_tip s) co pc pv pn ac (secrets s) ro (bal s) (del_fix s) (msg_guard s) rr (rot_check s) (actor_check s).
 
 Fixpoint mem (a : Z) (l : list Z) : bool := match l with [] => false | b :: r => (a =? b) || mem a r end.
 Definition add_mem (a : Z) (l : list Z) : list Z := if mem a l then l else l ++ [a].
@@ -313,12 +314,15 @@ Definition rotate_core (a b : addr) (s1 : state) : outcome state :=
   Ok (set_aux s3 (map (ren a b) (councilors s3)) (map (ren a b) (perm_c s3)) (map (ren a b) (perm_v s3)) (map (ren a b) (perm_n s3))
               (accts s3) (a :: rotated s3) (map (ren a b) (rrtok s3))).
 Definition has_records (s : state) (b : addr) : bool := match idx_of s b with [] => false | _ => true end.
+(* GetNetworkActorByAddress: an address is a network actor once a permission was whitelisted for it *)
+Definition is_actor (s : state) (b : addr) : bool := mem b (perm_c s) || mem b (perm_v s) || mem b (perm_n s).
 Definition rotate_msg (a b : addr) (proof_ok : bool) (s : state) : outcome state :=
   if mem a (rrtok s) then Err "address has validator recovery token" else
   if negb (mem a (secrets s)) then Err "recovery record not found" else
   if negb proof_ok then Err "invalid proof" else
   if mem b (rotated s) then Err "target address already has rotation history" else
   if rot_check s && has_records s b then Err "target address already has identity records" else
+  if actor_check s && is_actor s b then Err "target address is a network actor" else
   if negb (mem a (accts s)) then Err "account does not exist" else
   if mem b (accts s) then Err "rotated account already exists" else
   do s1 <- move_bal a b s;
@@ -329,6 +333,7 @@ Definition rotate_rr (a b : addr) (holder_ok : bool) (s : state) : outcome state
   if negb holder_ok then Err "not enough RR token amount for rotation" else
   if mem b (rotated s) then Err "target address already has rotation history" else
   if rot_check s && has_records s b then Err "target address already has identity records" else
+  if actor_check s && is_actor s b then Err "target address is a network actor" else
   rotate_core a b s.
 
 (* gov ExportGenesis + InitGenesis: records, requests and both counters are exported and re-imported;
@@ -387,5 +392,5 @@ Definition signer (o : op) : addr :=
 
 (* starting states: empty registry, given configuration and balances.  Granting the
    claim-councilor permission (AddWhitelistPermission) already creates a "waiting" councilor. *)
-Definition init_state (uk : string) (mt : Z) (pc pv pn ac se : list addr) (b : acct -> string -> Z) (fx mg : bool) (rr : list addr) (rc : bool) : state :=
-  mkState [] [] [] 0 0 uk mt pc pc pv pn ac se [] b fx mg rr rc.
+Definition init_state (uk : string) (mt : Z) (pc pv pn ac se : list addr) (b : acct -> string -> Z) (fx mg : bool) (rr : list addr) (rc ak : bool) : state :=
+  mkState [] [] [] 0 0 uk mt pc pc pv pn ac se [] b fx mg rr rc ak.
